@@ -131,7 +131,7 @@ type World struct {
 	// (a mixed deployment: records written before suffixing was switched on).
 	NextProcUnsuffixed bool
 
-	Store  *SimStore
+	Store *SimStore
 	// Mem, when set, puts the repository's real MemoryMetastore (which hands out and keeps the caller's
 	// pointers) behind the simulated RPC/fault layer; SimStore keeps the authoritative shadow copy.
 	Mem    *persistence.MemoryMetastore
@@ -152,14 +152,14 @@ type World struct {
 	RetainBuffers bool
 	// RealSecrets: 0 = tracking pure-Go factory, 1 = real protectedmemory, 2 = real memguard (behind a retaining wrapper)
 	RealSecrets int
-	Retained      []*Retained
+	Retained    []*Retained
 
 	ScanLeaks bool
 	// KeepEKRJSON records encoding/json's rendering of every key record the SDK stores (C18).
 	KeepEKRJSON bool
 	EKRJSON     []EKRDoc
-	Emitted   int // byte strings scanned for leaks
-	LogLines  int
+	Emitted     int // byte strings scanned for leaks
+	LogLines    int
 
 	Viols []Violation
 
@@ -395,7 +395,10 @@ func (w *World) Encrypt(se *Sess, payload []byte) (*Rec, *OpRec) {
 	orig := append([]byte(nil), payload...)
 	op := w.begin("encrypt", se.P, se.Part)
 	var drr *appencryption.DataRowRecord
-	w.guard(op, func() { drr, op.Err = se.S.Encrypt(context.Background(), payload) })
+	ctx, cancel := context.WithCancel(context.Background())
+	op.Cancel = cancel
+	w.guard(op, func() { drr, op.Err = se.S.Encrypt(ctx, payload) })
+	cancel()
 	w.end(op)
 	if op.Panic != "" {
 		w.Violate("panic", "panic@"+op.Panic, "Encrypt panicked: %s", op.Panic)
@@ -430,7 +433,10 @@ func (w *World) Decrypt(se *Sess, drr *appencryption.DataRowRecord) ([]byte, *Op
 	arg := copyDRR(drr)
 	op := w.begin("decrypt", se.P, se.Part)
 	var out []byte
-	w.guard(op, func() { out, op.Err = se.S.Decrypt(context.Background(), arg) })
+	ctx, cancel := context.WithCancel(context.Background())
+	op.Cancel = cancel
+	w.guard(op, func() { out, op.Err = se.S.Decrypt(ctx, arg) })
+	cancel()
 	w.end(op)
 	if op.Panic != "" {
 		w.Violate("panic", "panic@"+op.Panic, "Decrypt panicked: %s", op.Panic)
